@@ -21,14 +21,23 @@ from genlib import gen_request, generate, DEFAULT_OPTS
 KINDS = {"-": None, "T": "%s", "T!": "%s!", "[T]": "[%s]", "[T!]!": "[%s!]!", "[T!]": "[%s!]"}
 
 
-def graph_sdl(n, edges, oneof):
+NAMINGS = {
+    "plain": lambda j, k: "e%d_%d" % (j, k),
+    # names whose Rust identifier differs from the GraphQL name: keywords, camelCase, leading underscore
+    "keyword": lambda j, k: ["else", "where", "super", "type", "loop", "match"][(2 * j + k) % 6],
+    "camel": lambda j, k: "linkTo%d%s" % (j, "ab"[k % 2]),
+    "underscore": lambda j, k: "_not%d_%d" % (j, k),
+}
+
+
+def graph_sdl(n, edges, oneof, naming="plain"):
     """edges: dict (i, j) -> list of kind names; oneof: tuple of bools."""
     parts = ["schema { query: Q }", "type Q { f(a: In0): Int }"]
     for i in range(n):
         fields = ["v: Int"]
         for j in range(n):
             for k, kind in enumerate(edges.get((i, j), [])):
-                fields.append("e%d_%d: %s" % (j, k, KINDS[kind] % ("In%d" % j)))
+                fields.append("%s: %s" % (NAMINGS[naming](j, k), KINDS[kind] % ("In%d" % j)))
         parts.append("input In%d%s { %s }" % (i, " @oneOf" if oneof[i] else "", " ".join(fields)))
     return "\n".join(parts) + "\n"
 
@@ -285,15 +294,33 @@ def run(tier):
     # the small graphs once more under other options and from the JSON form of the schema (where the indirection
     # goes must depend on neither)
     n_default = len(graphs)
+    variant_of = {}
     ALT = dict(DEFAULT_OPTS, normalization="rust", skip_none=True, variables_derives="Deserialize,Debug,Clone,PartialEq")
+    SKIP = dict(DEFAULT_OPTS, skip_none=True)
+    skip_idx = []
     for n, edges, oneof in list(graphs):
         if n <= 2 and not any(len(v) > 1 for v in edges.values()):
+            variant_of[len(graphs)] = "other options"
             graphs.append((n, edges, oneof))
             reqs.append({"op": "gen", "schema_path": scratch_file(graph_sdl(n, edges, oneof), "graphql", "c12"), "query_text": query,
                          "options": ALT, "tokens": False, "edges": True})
+            variant_of[len(graphs)] = "schema as introspection JSON"
             graphs.append((n, edges, oneof))
             reqs.append({"op": "gen", "schema_path": scratch_file(graph_schema(n, edges, oneof).introspection(), "json", "c12"), "query_text": query,
                          "options": DEFAULT_OPTS, "tokens": False, "edges": True})
+            for naming in ("keyword", "camel", "underscore"):
+                if n == 1 or naming == "keyword" or tier == "thorough":
+                    variant_of[len(graphs)] = "field names: " + naming
+                    graphs.append((n, edges, oneof))
+                    reqs.append({"op": "gen", "schema_path": scratch_file(graph_sdl(n, edges, oneof, naming), "graphql", "c12"), "query_text": query,
+                                 "options": DEFAULT_OPTS, "tokens": False, "edges": True})
+            if n == 1 or all(tuple(v) in ((), ("T",)) for v in edges.values()):
+                # skip-none: compiled below, the JSON must not show the indirection either (a None member is omitted)
+                variant_of[len(graphs)] = "skip_serializing_none"
+                skip_idx.append(len(graphs))
+                graphs.append((n, edges, oneof))
+                reqs.append({"op": "gen", "schema_path": scratch_file(graph_sdl(n, edges, oneof), "graphql", "c12"), "query_text": query,
+                             "options": SKIP, "tokens": False, "edges": True})
     log(f"[C12] {len(graphs)} input-type graphs")
     resps = run_cases(reqs, progress=20000)
     states = 0
@@ -303,7 +330,7 @@ def run(tier):
     for gi, ((n, edges, oneof), r) in enumerate(zip(graphs, resps)):
         states += 1
         label = {"n": n, "edges": {"%d->%d" % k: v for k, v in edges.items() if v}, "oneOf": list(oneof),
-                 "variant": "default" if gi < n_default else ("other options" if (gi - n_default) % 2 == 0 else "schema as introspection JSON")}
+                 "variant": variant_of.get(gi, "default")}
         if r["status"] != "ok":
             rep.violation("generation_failed", dict(label, schema=graph_sdl(n, edges, oneof)), r.get("msg") or r["status"])
             continue
@@ -361,6 +388,7 @@ def run(tier):
                 if key not in seen:
                     seen.add(key)
                     conf.append(idx)
+    conf = conf + skip_idx
     creqs = [dict(reqs[i], tokens=True, edges=True) for i in conf]
     cres = run_cases(creqs)
     for i, r in zip(conf, cres):
@@ -370,7 +398,8 @@ def run(tier):
         label = {"n": n, "edges": {"%d->%d" % k: v for k, v in edges.items() if v}, "oneOf": list(oneof),
                  "schema": graph_sdl(n, edges, oneof)}
         cid = farm.add(Case(r["tokens"], [("op", "Op")]))
-        compiled.append({"kind": "input", "label": label, "case": cid, "model_infinite": bool(has_cycle(r["edges"])), "graph": graphs[i]})
+        compiled.append({"kind": "input", "label": dict(label, variant=variant_of.get(i, "default")), "case": cid, "model_infinite": bool(has_cycle(r["edges"])),
+                         "graph": graphs[i], "skip_none": i in variant_of and variant_of[i] == "skip_serializing_none"})
         twin = strip_boxes(r["tokens"])
         if twin != r["tokens"] and (tier == "thorough" or len(compiled) % 3 == 0):
             compiled.append({"kind": "input_twin", "label": dict(label, twin="Box stripped"), "tokens": twin})
@@ -414,6 +443,9 @@ def run(tier):
         got = json.loads(r["out"])["variables"]["a"]
         if strip_nulls(got) != strip_nulls(v):
             rep.violation("box_visible_in_json", dict(c["label"], value=v), got)
+        elif c.get("skip_none") and got != strip_nulls(v):
+            # with skip_serializing_none a None member is left out - boxed or not
+            rep.violation("box_visible_in_json", dict(c["label"], value=v, expected=strip_nulls(v)), got)
     cov = {
         "states": states, "transitions": len(reqs) + len(pats) + len(twins) + len(vreqs),
         "traces_validated_against_impl": validated,
